@@ -112,10 +112,11 @@ def shard_orders(arg):
 
 
 # --------------------------------------------------------------------------- events
-def check_events(acc, ref, est, window, chroma=False, site=None):
-    """ref/est: lists of floats in the order supplied to the library."""
-    r = np.array(ref, dtype=float)
-    e = np.array(est, dtype=float)
+def check_events(acc, ref, est, window, chroma=False, site=None, dtypes=("float", "float")):
+    """ref/est: lists of floats in the order supplied to the library; dtypes: element types of the two arrays
+    (whole-second annotations may arrive integer-typed)."""
+    r = np.array(ref, dtype=dtypes[0])
+    e = np.array(est, dtype=dtypes[1])
     w = Fr(window)
     if chroma:
         def pred(i, j):
@@ -142,7 +143,8 @@ def check_events(acc, ref, est, window, chroma=False, site=None):
         why, size = "raised %s: %s" % (type(ex).__name__, ex), None
     acc.outcome((len(ref), len(est), size))
     if why is not None or size != expect:
-        case = {"kind": "events", "ref": list(ref), "est": list(est), "window": window, "chroma": chroma}
+        case = {"kind": "events", "ref": list(ref), "est": list(est), "window": window, "chroma": chroma,
+                "dtypes": list(dtypes)}
         if why is not None:
             acc.violation("valid-pairing", site, case, observed=why)
         else:
@@ -160,7 +162,8 @@ def _orders(t, mode):
 
 
 def shard_events(arg):
-    refs, ests, windows, mode, chroma = arg
+    refs, ests, windows, mode, chroma = arg[:5]
+    dtypes = tuple(arg[5]) if len(arg) > 5 else ("float", "float")
     acc = core.Acc(PID)
     for ref in refs:
         for est in ests:
@@ -176,10 +179,12 @@ def shard_events(arg):
                 if len(set(ref)) < len(ref) or len(set(est)) < len(est):
                     acc.counters["events.duplicates"] += 1
                 # all orders of the reference with the estimate sorted, and vice versa
+                if dtypes != ("float", "float"):
+                    acc.counters["events.integer_typed_side"] += 1
                 for ro in _orders(ref, mode):
-                    check_events(acc, ro, est, w, chroma)
+                    check_events(acc, ro, est, w, chroma, dtypes=dtypes)
                 for eo in _orders(est, mode)[1:]:
-                    check_events(acc, ref, eo, w, chroma)
+                    check_events(acc, ref, eo, w, chroma, dtypes=dtypes)
     if refs and ests:
         acc.sample({"kind": "events", "ref": list(refs[-1]), "est": list(ests[-1]), "window": windows[0],
                     "chroma": chroma})
@@ -414,7 +419,8 @@ def replay(case, acc):
         check_graph(acc, case["nu"], case["nv"], case["rows"], case.get("key_order"),
                     case.get("nbr_desc", False), case.get("empty_keys", False), case.get("nbr_perm"))
     elif k == "events":
-        check_events(acc, case["ref"], case["est"], case["window"], case.get("chroma", False))
+        check_events(acc, case["ref"], case["est"], case["window"], case.get("chroma", False),
+                     dtypes=tuple(case.get("dtypes", ("float", "float"))))
     elif k == "notes":
         check_notes(acc, case["fn"], [tuple(n) for n in case["ref"]], [tuple(n) for n in case["est"]],
                     case["onset_tol"], case["pitch_tol"], case["offset_ratio"], case["offset_min"],
@@ -473,6 +479,13 @@ def run(run):
         ms6 = list(lib.multisets(pts6, 4))
         run.explore("events<=4 over 6pts", mod, "shard_events",
                     [(ch, ms6, windows, "rev", False) for ch in core.chunks(ms6, 32)])
+    # (2b) one side integer-typed (whole seconds), the other on the quarter-second lattice
+    zi = list(lib.multisets([float(ph + k) for k in (0, 1, 2)], 3))
+    zf = list(lib.multisets([ph + k / 4.0 for k in (0, 1, 2, 3, 4, 6)], 3))
+    run.explore("events, integer-typed reference", mod, "shard_events",
+                [(ch, zf, [0.25, 0.5, 0.75], "rev", False, ("int64", "float")) for ch in core.chunks(zi, 8)])
+    run.explore("events, integer-typed estimate", mod, "shard_events",
+                [(ch, zi, [0.25, 0.5, 0.75], "rev", False, ("float", "int64")) for ch in core.chunks(zf, 16)])
     # (3) chroma path
     cpts = [0.0, 0.25, 0.5, 1.0, 6.0, 11.5, 11.75] + ([12.25, 23.75] if thorough else [])
     cms = list(lib.multisets(cpts, 3))
